@@ -5,6 +5,8 @@ P=$(realpath "$1"); shift
 rsync -a --delete --exclude _build --exclude replays --exclude .git /verif/ /tmp/verif2/
 mkdir -p /tmp/verif2/_build
 export VERIF_REPO=/tmp/repo2
+[ -d /tmp/repo2 ] || git -C /repo worktree add -q --detach /tmp/repo2 HEAD
+git -C /tmp/repo2 checkout -q --detach $(git -C /repo rev-parse HEAD) 2>/dev/null
 trap 'git -C /tmp/repo2 checkout -- . ; git -C /tmp/repo2 clean -fdq' EXIT
 git -C /tmp/repo2 checkout -q -- . ; git -C /tmp/repo2 apply "$P" || exit 2
 for c in "$@"; do
